@@ -339,6 +339,29 @@ func (m *a8Model) guardEstablishes(d *ssa.BasicBlock, idx int, v ssa.Value, side
 	if !ok {
 		return false
 	}
+	// a range predicate of the package (`if lifetimeOutOfRange(ttl, unit) { refuse }`): on the side on which it answered
+	// false every comparison it is the disjunction of is false
+	if side == sideUpper {
+		cond, neg := ifi.Cond, false
+		for {
+			u, isU := cond.(*ssa.UnOp)
+			if !isU || u.Op != token.NOT {
+				break
+			}
+			cond, neg = u.X, !neg
+		}
+		if call, isCall := cond.(*ssa.Call); isCall {
+			falseSide := (idx == 1) != neg
+			if g := call.Call.StaticCallee(); g != nil && falseSide && len(g.Blocks) > 0 {
+				rv := a8root(v)
+				for i, a := range call.Call.Args {
+					if sameA8(a8root(a), rv) && i < len(g.Params) && disjunctBoundsAbove(g, g.Params[i]) {
+						return true
+					}
+				}
+			}
+		}
+	}
 	bo, ok := ifi.Cond.(*ssa.BinOp)
 	if !ok {
 		return false
@@ -1338,6 +1361,110 @@ func wrapGuarded(sum *ssa.BinOp, blk *ssa.BasicBlock) bool {
 			if (bo.Op == token.GTR && !onTrue) || (bo.Op == token.LEQ && onTrue) {
 				return true
 			}
+		}
+	}
+	return false
+}
+
+// disjunctBoundsAbove: g returns a boolean that is a disjunction of comparisons (every constant that can reach the
+// result is true), and one of the disjuncts is `p > x` / `p >= x` (or mirrored) with x not depending on p: when g
+// answers false, p is at most x.
+func disjunctBoundsAbove(g *ssa.Function, p *ssa.Parameter) bool {
+	if g.Signature.Results().Len() != 1 {
+		return false
+	}
+	if bt, ok := g.Signature.Results().At(0).Type().Underlying().(*types.Basic); !ok || bt.Kind() != types.Bool {
+		return false
+	}
+	var disjuncts []*ssa.BinOp
+	okShape := true
+	var collect func(v ssa.Value, d int)
+	collect = func(v ssa.Value, d int) {
+		if d > 6 {
+			okShape = false
+			return
+		}
+		switch x := v.(type) {
+		case *ssa.Const:
+			if x.Value == nil || x.Value.String() != "true" {
+				okShape = false // a conjunction: false does not tell which part failed
+			}
+		case *ssa.BinOp:
+			disjuncts = append(disjuncts, x)
+		case *ssa.Phi:
+			for i, e := range x.Edges {
+				collect(e, d+1)
+				// the edge was taken on the false side of the branch before it: that branch's comparison is a disjunct too
+				pred := x.Block().Preds[i]
+				if ifi, ok := pred.Instrs[len(pred.Instrs)-1].(*ssa.If); ok {
+					if bo, ok := ifi.Cond.(*ssa.BinOp); ok {
+						disjuncts = append(disjuncts, bo)
+					}
+				}
+			}
+		default:
+			okShape = false
+		}
+	}
+	n := 0
+	for _, b := range g.Blocks {
+		if ret, ok := b.Instrs[len(b.Instrs)-1].(*ssa.Return); ok && len(ret.Results) == 1 {
+			n++
+			collect(ret.Results[0], 0)
+		}
+	}
+	// every branch of g must be one of the disjuncts' short-circuit tests (no other control flow)
+	for _, b := range g.Blocks {
+		if ifi, ok := b.Instrs[len(b.Instrs)-1].(*ssa.If); ok {
+			if _, isBo := ifi.Cond.(*ssa.BinOp); !isBo {
+				okShape = false
+			}
+		}
+	}
+	if !okShape || n != 1 {
+		return false
+	}
+	for _, bo := range disjuncts {
+		x, y, op := bo.X, bo.Y, bo.Op
+		if a8root(y) == ssa.Value(p) {
+			x, y = y, x
+			switch op {
+			case token.LSS:
+				op = token.GTR
+			case token.LEQ:
+				op = token.GEQ
+			case token.GTR:
+				op = token.LSS
+			case token.GEQ:
+				op = token.LEQ
+			}
+		}
+		if a8root(x) != ssa.Value(p) || (op != token.GTR && op != token.GEQ) {
+			continue
+		}
+		// the other side does not depend on p
+		dep := false
+		seen := map[ssa.Value]bool{}
+		var uses func(v ssa.Value)
+		uses = func(v ssa.Value) {
+			if v == nil || seen[v] {
+				return
+			}
+			seen[v] = true
+			if v == ssa.Value(p) {
+				dep = true
+				return
+			}
+			if in, ok := v.(ssa.Instruction); ok {
+				var ops []*ssa.Value
+				for _, o := range in.Operands(ops) {
+					uses(*o)
+				}
+			}
+		}
+		uses(y)
+		if !dep {
+			return true
 		}
 	}
 	return false
